@@ -48,7 +48,7 @@ Ops ==
 NewT == [op |-> "newtable", via |-> "core"]
 Init == /\ st = Apply(InitState, NewT, <<>>) /\ hist = <<NewT>> /\ bi = 1
 Next == \E op \in Ops :
-          /\ st' = Apply(st, op, ImplEvents(st, SlotsOf(st, op)))
+          /\ st' = Apply(st, op, ImplEvents(st, SlotsOfAll(st, op)))
           /\ hist' = Append(hist, op)
           /\ bi' = IF bi <= Len(Script) /\ op = Script[bi] THEN bi + 1 ELSE bi
 Spec == Init /\ [][Next]_vars
@@ -58,7 +58,7 @@ Emit == GenFile = "" \/ CSVWrite("%1$s", <<ToJson(hist')>>, GenFile)
 \* model level: the events the implementation-shaped dispatch performs satisfy
 \* the declarative relation (required once, optional at most once, slot order)
 DispatchOK ==
-  \A op \in Ops : LET sl == SlotsOf(st, op) IN AgreeCbLog(st, sl, ImplEvents(st, sl))
+  \A op \in Ops : LET sl == SlotsOfAll(st, op) IN AgreeCbLog(st, sl, ImplEvents(st, sl))
 
 \* a mark is visible through the table exactly where a callback ran
 Inv == Inv_C02(st) /\ DispatchOK
